@@ -244,7 +244,11 @@ impl AbsTl {
     }
     /// The timeline as a function of time (and of the substituted start values).
     pub(crate) fn eval(&self, time: f32) -> Vals {
-        if time <= self.delay {
+        // terminal constancy first: from `duration()` on a timeline shows its terminal values, also in
+        // the degenerate case duration() == delay() (C03 `ts_lemma_duration_agrees_*`)
+        if time >= self.duration {
+            self.end
+        } else if time <= self.delay {
             match self.ovr {
                 Some(v) => v,
                 None => self.start,
